@@ -87,12 +87,11 @@ Init == m = [phase |-> "gen"] /\ sc = <<>>
 Quick == Tier = "quick"
 Gen ==
   /\ m.phase = "gen"
-  /\ \/ \E pre \in (IF Quick THEN {1, 2} ELSE {1, 2, 3}) : \E k \in 1..NCons : \E s \in (IF Quick THEN SeqsQuick ELSE SeqsThorough) :
-          /\ sc' = <<pre, k>> \o s
-          /\ m' = LoadX(Script(pre, k, s) \o Helpers, {}, A("q"))
-     \/ \E pre \in (IF Quick THEN {3} ELSE {1, 3}) : \E k \in 1..NCons : \E s \in (IF Quick THEN Seqs(2, Core) ELSE Seqs4) :
-          /\ sc' = <<pre, k>> \o s
-          /\ m' = LoadX(Script(pre, k, s) \o Helpers, {}, A("q"))
+  /\ \E v \in (IF Quick THEN ({1, 2} \X SeqsQuick) \cup ({3} \X Seqs(2, Core))
+                         ELSE ({1, 2} \X SeqsThorough) \cup ({3} \X SeqsQuick) \cup ({1} \X Seqs4)) :
+       \E k \in 1..NCons :
+          /\ sc' = <<v[1], k>> \o v[2]
+          /\ m' = LoadX(Script(v[1], k, v[2]) \o Helpers, {}, A("q"))
 Run1 == m.phase = "run" /\ m' = StepX(m) /\ UNCHANGED sc
 Next == Gen \/ Run1
 
